@@ -210,6 +210,14 @@ def run(repo: Repo, rep: Report) -> None:
         p = f.args.args[1].arg
         a = c.args
 
+        from vlib import h_c08 as _H
+
+        fparams = {x.arg for x in f.args.args}
+
+        def flat(e):
+            """the bound in terms of the parameter: locals that are bound once, unconditionally, are replaced by their values (offset = <p>.start; ...)"""
+            return _H.subst_locals(f, e, fparams)
+
         def unclamp(e):
             """X of min(X, <a bound that does not depend on the slice>): islice() takes no int above sys.maxsize, clamping there changes no slice"""
             if isinstance(e, ast.Call) and norm(e.func) == "min" and len(e.args) == 2:
@@ -218,40 +226,66 @@ def run(repo: Repo, rep: Report) -> None:
                     return dep[0]
             return e
 
-        def defs(e):
-            """the expressions a bound can hold, each with the test it is assigned under (None: unconditionally)"""
-            if not isinstance(e, ast.Name):
-                return [(e, None)]
-            out = []
-            for st in own_nodes(f):
-                if isinstance(st, ast.Assign) and norm(st.targets[0]) == e.id:
-                    par_ = ev.parent.get(id(st))
-                    out.append((st.value, par_.test if isinstance(par_, ast.If) and st in par_.body else None))
-            return out
+        def len_test(t):
+            """+1: the test holds iff <p>.length is not None (by identity); -1: iff it is None; 0: something else (truthiness: LIMIT 0 is falsy)"""
+            t = flat(t)
+            if isinstance(t, ast.UnaryOp) and isinstance(t.op, ast.Not):
+                return -len_test(t.operand)
+            if isinstance(t, ast.Compare) and len(t.ops) == 1 and norm(t.left) == p + ".length" and isinstance(t.comparators[0], ast.Constant) and t.comparators[0].value is None:
+                return 1 if isinstance(t.ops[0], ast.IsNot) else -1 if isinstance(t.ops[0], ast.Is) else 0
+            return 0
 
-        def is_len_test(t):
-            return isinstance(t, ast.Compare) and isinstance(t.ops[0], ast.IsNot) and norm(t.left) == p + ".length" and isinstance(t.comparators[0], ast.Constant) and t.comparators[0].value is None
+        def alts(e, cond=None, depth=0):
+            """the values a bound can hold, each as (value, under which knowledge about LIMIT it is chosen, line): None = on every path, +1 = LIMIT present,
+            -1 = LIMIT absent, 0 = under some other test.  Follows conditional expressions and the assignments of a local bound on several paths"""
+            def under(c):
+                return c if cond is None else (cond if c == cond else 0)
+            if isinstance(e, ast.IfExp):
+                k = len_test(e.test)
+                return alts(e.body, under(k), depth) + alts(e.orelse, under(-k), depth)
+            if isinstance(e, ast.Name) and e.id not in fparams and depth < 3:
+                out = []
+                for st in own_nodes(f):
+                    if isinstance(st, (ast.Assign, ast.AnnAssign)) and getattr(st, "value", None) is not None and any(
+                            isinstance(t, ast.Name) and t.id == e.id for t in (st.targets if isinstance(st, ast.Assign) else [st.target])):
+                        c = None
+                        child = st
+                        for par_ in ev.parents(st):
+                            if par_ is f:
+                                break
+                            if isinstance(par_, ast.If):
+                                k = len_test(par_.test)
+                                k = k if child in par_.body else -k if child in par_.orelse else 0
+                                c = k if c is None else (c if c == k else 0)
+                            elif not isinstance(par_, (ast.With,)):
+                                c = 0  # in a loop, a try, ...: not modelled
+                            child = par_
+                        out.append((st.value, under(c) if c is not None else cond, st.lineno))
+                if out:
+                    res = []
+                    for v, c, ln in out:
+                        for v2, c2, _ln2 in alts(v, c, depth + 1):
+                            res.append((v2, c2, ln))
+                    return res
+            return [(e, cond, getattr(e, "lineno", 0))]
 
         def is_sum(e):
-            e = unclamp(e)
+            e = unclamp(flat(e))
             return isinstance(e, ast.BinOp) and isinstance(e.op, ast.Add) and {norm(e.left), norm(e.right)} == {p + ".start", p + ".length"}
 
-        lo = defs(a[1]) if len(a) == 3 else []
-        ok1 = len(a) == 3 and len(lo) == 1 and lo[0][1] is None and norm(unclamp(lo[0][0])) == p + ".start"
+        def is_none(e):
+            return isinstance(e, ast.Constant) and e.value is None
+
+        lo = alts(a[1]) if len(a) == 3 else []
+        ok1 = len(a) == 3 and len(lo) == 1 and lo[0][1] is None and norm(unclamp(flat(lo[0][0]))) == p + ".start"
         rep.ob("C08.d-slice-bounds", ev, "evalSlice", "lower bound %s" % (norm(a[1]) if len(a) > 1 else None), ok1, "" if ok1 else "lower bound is not %s.start" % p, node=c)
-        ok2 = False
-        ok3 = False
-        if len(a) == 3 and isinstance(a[2], ast.IfExp):
-            ie = a[2]
-            ok2 = is_sum(ie.body) and isinstance(ie.orelse, ast.Constant) and ie.orelse.value is None
-            ok3 = is_len_test(ie.test)
-        elif len(a) == 3 and isinstance(a[2], ast.Name):
-            # stop = None; if <p>.length is not None: stop = <p>.start + <p>.length
-            hi = defs(a[2])
-            nones = [d for d in hi if isinstance(d[0], ast.Constant) and d[0].value is None and d[1] is None]
-            sums = [d for d in hi if is_sum(d[0])]
-            ok2 = len(hi) == 2 and len(nones) == 1 and len(sums) == 1
-            ok3 = ok2 and sums[0][1] is not None and is_len_test(sums[0][1])
+        # the upper bound is <p>.start + <p>.length where LIMIT is present and None where it is not: exactly these two values reach islice, the sum only under
+        # `<p>.length is not None`, None under the opposite test or as the default that the sum overwrites
+        hi = alts(a[2]) if len(a) == 3 else []
+        sums = [d for d in hi if is_sum(d[0])]
+        nones = [d for d in hi if is_none(d[0])]
+        ok2 = len(hi) == 2 and len(sums) == 1 and len(nones) == 1
+        ok3 = ok2 and sums[0][1] == 1 and (nones[0][1] == -1 or (nones[0][1] is None and nones[0][2] < sums[0][2]))
         rep.ob("C08.d-slice-bounds", ev, "evalSlice", "upper bound start + length", ok2, "" if ok2 else "upper bound is not %s.start + %s.length (else None)" % (p, p), node=c)
         rep.ob("C08.d-slice-bounds", ev, "evalSlice", "`length is not None` by identity", ok3, "" if ok3 else "presence of LIMIT is not tested with `is not None` (LIMIT 0 is falsy)", node=c)
 
@@ -358,11 +392,13 @@ def run(repo: Repo, rep: Report) -> None:
                        clause.upper(), norm(bad), "HAVING (?d != <x>)" if clause == "having" else "ORDER BY ?d"), node=bad or n)
 
 
+from vlib.core import layer as _layer  # noqa: E402
+
 _run_base = run
 
 
 def run(repo: Repo, rep: Report) -> None:  # noqa: F811
-    _run_base(repo, rep)
+    _layer(rep, _run_base, repo)
     ag = repo.mod("rdflib.plugins.sparql.aggregates")
     # ------------------------------------------------------------------ (i)
     rep.rule("C08.i-extremum-is-a-member-of-the-group",
@@ -403,7 +439,7 @@ _run_base2 = run
 
 
 def run(repo: Repo, rep: Report) -> None:  # noqa: F811
-    _run_base2(repo, rep)
+    _layer(rep, _run_base2, repo)
     alg = repo.mod("rdflib.plugins.sparql.algebra")
     rep.rule("C08.k-modifier-keyword-to-algebra-node",
              "algebra.translate maps SELECT DISTINCT to a `Distinct` node and SELECT REDUCED to a `Reduced` node on every path: under the test `q.modifier == \"DISTINCT\"` the only "
@@ -432,7 +468,7 @@ _run_base3 = run
 
 def run(repo: Repo, rep: Report) -> None:  # noqa: F811
     """Rules l-r: one structural necessary condition per defect repaired in the audit round (F102-F109), each quantified over every site of its kind."""
-    _run_base3(repo, rep)
+    _layer(rep, _run_base3, repo)
     from vlib import h_c08 as H
 
     rep.extra["explanation"] = rep.extra.get("explanation", "") + (
@@ -593,25 +629,19 @@ def run(repo: Repo, rep: Report) -> None:  # noqa: F811
              "every function used as key= of sorted()/min()/max() in evaluate.py and aggregates.py (ORDER BY, MIN, MAX) returns a key on every path, whatever it is given: an ORDER BY "
              "expression that is an error for some solution hands the error object to the key function; falling off the end returns None and sorted() raises TypeError comparing None with a tuple "
              "(`ORDER BY (1/?z)` with one ?z = 0)", floor=3)
-    for m in (ev, ag):
-        for c in ast.walk(m.tree):
-            if not (isinstance(c, ast.Call) and isinstance(c.func, ast.Name) and c.func.id in ("sorted", "min", "max")):
-                continue
-            for k in c.keywords:
-                if k.arg != "key":
-                    continue
-                kf = k.value
-                if isinstance(kf, ast.Lambda) and isinstance(kf.body, ast.Call) and isinstance(kf.body.func, ast.Name):
-                    kf = kf.body.func
-                r = H.resolve_function(repo, m, kf.id) if isinstance(kf, ast.Name) else None
-                if r is None:
-                    # an expression (lambda not delegating to a function of the library) or a builtin: yields a value by construction
-                    rep.ob("C08.o-sort-key-is-total", m, m.qual_of(c), "%s(key=<expression>)" % c.func.id, True, "the key is an expression, not a function with paths", node=c, vacuous=True)
-                    continue
-                total = H.always_returns_value(r[1].body)
-                rep.ob("C08.o-sort-key-is-total", m, m.qual_of(c), "%s(key=%s)" % (c.func.id, r[1].name), total,
-                       "returns a key on every path" if total else "%s.%s has a path that falls off the end (returns None) - taken for an argument that matches none of its tests, e.g. the "
-                       "error object an ORDER BY expression evaluated to: None and a tuple are not comparable, sorted() raises TypeError" % (r[0].rel, r[1].name), node=c)
+    # the callable a key= expression evaluates to (H.key_chain): a lambda or a nested def that only hands its argument on to a function of the package is followed;
+    # every function on the way has to return on every path, the last one computes the key
+    key_sites = H.sort_key_sites(repo, (ev, ag))
+    for m, c, chain in key_sites:
+        if not chain:
+            # an expression (lambda not delegating to a function of the library) or a builtin: yields a value by construction
+            rep.ob("C08.o-sort-key-is-total", m, m.qual_of(c), "%s(key=<expression>)" % c.func.id, True, "the key is an expression, not a function with paths", node=c, vacuous=True)
+            continue
+        partial = [(km, kf) for km, kf, _s in chain if not H.always_returns_value(kf.body)]
+        total = not partial
+        rep.ob("C08.o-sort-key-is-total", m, m.qual_of(c), "%s(key=%s)" % (c.func.id, chain[-1][1].name), total,
+               "returns a key on every path" if total else "%s.%s has a path that falls off the end (returns None) - taken for an argument that matches none of its tests, e.g. the "
+               "error object an ORDER BY expression evaluated to: None and a tuple are not comparable, sorted() raises TypeError" % (partial[0][0].rel, partial[0][1].name), node=c)
 
     # ------------------------------------------------------------------ (p)  F108
     rep.rule("C08.p-sort-key-number-block-agrees-with-literal-order",
@@ -643,44 +673,30 @@ def run(repo: Repo, rep: Report) -> None:  # noqa: F811
     if len(lit_pred) != 1:
         raise AnalysisError("Literal.__gt__: the predicate selecting comparison by value (datatype in <numeric types> and ...) not found uniquely: %s" % sorted(map(sorted, lit_pred)))
     want = next(iter(lit_pred))
-    keyfns = {}
-    for m in (ev, ag):
-        for c in ast.walk(m.tree):
-            if isinstance(c, ast.Call) and isinstance(c.func, ast.Name) and c.func.id in ("sorted", "min", "max"):
-                for k in c.keywords:
-                    kf = k.value
-                    if k.arg == "key":
-                        if isinstance(kf, ast.Lambda) and isinstance(kf.body, ast.Call) and isinstance(kf.body.func, ast.Name):
-                            kf = kf.body.func
-                        r = H.resolve_function(repo, m, kf.id) if isinstance(kf, ast.Name) else None
-                        if r is not None:
-                            keyfns[id(r[1])] = r
-    if not keyfns:
+    # The key functions that order TERMS, by role: the key of a sort in the evaluator of the OrderBy node and in the accumulator classes (MIN / MAX) must have a
+    # branch for literals (else the rule has lost its anchor); a key function elsewhere (e.g. the count of unbound positions by which the triple patterns of a
+    # BGP are arranged) is looked at if it has one, and is not a key over terms otherwise.
+    term_keys = H.term_key_functions(repo, ev, ag, key_sites)
+    if not term_keys:
         raise AnalysisError("no sort key function found")
-    for km, kfn in keyfns.values():
-        p0 = kfn.args.args[0].arg
+    for km, kfn, p0, lit_returns in term_keys:
         params = {a.arg for a in kfn.args.args}
-        found = False
-        for br in own_nodes(kfn):
-            if not (isinstance(br, ast.If) and isinstance(br.test, ast.Call) and norm(br.test.func) == "isinstance" and norm(br.test.args[0]) == p0 and "Literal" in H.type_names(br.test.args[1])):
+        for rt in lit_returns:
+            if rt.value is None:
                 continue
-            for rt in [x for s_ in br.body for x in ast.walk(s_) if isinstance(x, ast.Return)]:
-                found = True
-                elts = rt.value.elts if isinstance(rt.value, ast.Tuple) else [rt.value]
-                idx = next((i for i, e in enumerate(elts) if isinstance(e, ast.Name) and e.id == p0), len(elts))
-                got = set()
-                for e in elts[:idx]:
-                    for x in H.expand_locals(kfn, e, params):
-                        for b in ast.walk(x):
-                            if isinstance(b, ast.BoolOp) and isinstance(b.op, ast.And):
-                                got.add(conjuncts(b, p0))
-                ok = want in got
-                rep.ob("C08.p-sort-key-number-block-agrees-with-literal-order", km, kfn.name, "key of a Literal: %s" % norm(rt.value), ok,
-                       "numbers first, by Literal.__gt__'s own predicate" if ok else
-                       "the key of a literal has no component before the literal itself that is computed with Literal.__gt__'s predicate %s%s: numbers (ordered by value across datatypes) are interleaved "
-                       "with the literals ordered by datatype and text, the comparison is cyclic" % (sorted(want), " (found %s)" % sorted(map(sorted, got)) if got else ""), node=rt)
-        if not found:
-            raise AnalysisError("%s: branch for Literal not found" % kfn.name)
+            elts = rt.value.elts if isinstance(rt.value, ast.Tuple) else [rt.value]
+            idx = next((i for i, e in enumerate(elts) if isinstance(e, ast.Name) and e.id == p0), len(elts))
+            got = set()
+            for e in elts[:idx]:
+                for x in H.expand_locals(kfn, e, params):
+                    for b in ast.walk(x):
+                        if isinstance(b, ast.BoolOp) and isinstance(b.op, ast.And):
+                            got.add(conjuncts(b, p0))
+            ok = want in got
+            rep.ob("C08.p-sort-key-number-block-agrees-with-literal-order", km, kfn.name, "key of a Literal: %s" % norm(rt.value), ok,
+                   "numbers first, by Literal.__gt__'s own predicate" if ok else
+                   "the key of a literal has no component before the literal itself that is computed with Literal.__gt__'s predicate %s%s: numbers (ordered by value across datatypes) are interleaved "
+                   "with the literals ordered by datatype and text, the comparison is cyclic" % (sorted(want), " (found %s)" % sorted(map(sorted, got)) if got else ""), node=rt)
 
     # ------------------------------------------------------------------ (q)  F104
     rep.rule("C08.q-no-aggregate-binds-None",
@@ -777,3 +793,513 @@ def run(repo: Repo, rep: Report) -> None:  # noqa: F811
                    node=unguarded[0] if unguarded else sv)
     if n_num < 2:
         raise AnalysisError("expected SUM and AVG to convert with operators.numeric(); found %d such accumulator(s)" % n_num)
+
+
+_run_base4 = run
+
+
+def run(repo: Repo, rep: Report) -> None:  # noqa: F811
+    """Rules s-ac: one structural necessary condition per defect repaired in the second audit round (F273-F283), each quantified over every site of its kind."""
+    _layer(rep, _run_base4, repo)
+    from vlib import h_c08 as H
+
+    rep.extra["explanation"] = rep.extra.get("explanation", "") + (
+        " (s) no evaluator reaches below its operand by a fixed chain of .p steps; (t) an operand is evaluated with the solutions of its sibling pushed in only where the node's "
+        "lazy flag allows it, and analyse() records the flag for every node kind whose evaluator reads it; (u) analyse() declares not lazily joinable every node kind whose evaluator "
+        "carries state from one solution of its operand to the next; (v) the group keys are sampled also without a SELECT clause; (w) SELECT aliases are kept out of the SAMPLE rewrite; "
+        "(x) the sort key separates the literals Literal.__gt__ refuses to compare; (y) the additions of SUM/AVG handle OverflowError like a type error; (z) an aggregate that tracks "
+        "the datatype of its operands passes it to the literal it returns; (aa) islice bounds are clamped; (ab) SELECT * does not look for variables where they are not in scope; "
+        "(ac) every clause that may hold EXISTS goes through translateExists, and _sample does not enter its pattern."
+    )
+
+    ev = repo.mod("rdflib.plugins.sparql.evaluate")
+    ag = repo.mod("rdflib.plugins.sparql.aggregates")
+    alg = repo.mod("rdflib.plugins.sparql.algebra")
+    par = repo.mod("rdflib.plugins.sparql.parser")
+    term = repo.mod("rdflib.term")
+    opm = repo.mod("rdflib.plugins.sparql.operators")
+    typed = repo.typed
+    AG = "rdflib.plugins.sparql.aggregates."
+    P = H.P_STEPS
+
+    def enclosing(m, n, kinds, stop):
+        for p_ in m.parents(n):
+            if isinstance(p_, kinds):
+                yield p_
+            if p_ is stop:
+                return
+
+    # ------------------------------------------------------------------ (s)  F273
+    rep.rule("C08.s-no-positional-algebra-navigation",
+             "evaluate.py: an evaluator looks at its own node and hands the operands (.p / .p1 / .p2) to evalPart; it never takes a second operand step from an operand (x.p.p, or y.p of a "
+             "local y = x.p) unless the kind of that operand was tested (`<operand>.name` in an enclosing if / while). What lies below the root depends on the solution modifiers written: "
+             "`CONSTRUCT WHERE { ?s ?p ?o } LIMIT 1` is ConstructQuery(Slice(Project(BGP))), reading the template as query.p.p.triples finds None there and the query raises TypeError",
+             floor=12)
+    for q, f in ev.functions():
+        sites = [n for n in own_nodes(f) if isinstance(n, ast.Attribute) and n.attr in P]
+        if not sites:
+            continue
+        derived = {t.id for a in own_nodes(f) if isinstance(a, ast.Assign) and isinstance(a.value, ast.Attribute) and a.value.attr in P for t in a.targets if isinstance(t, ast.Name)}
+        bad = None
+        for n in sites:
+            b = n.value
+            if not ((isinstance(b, ast.Attribute) and b.attr in P) or (isinstance(b, ast.Name) and b.id in derived)):
+                continue
+            tested = any(isinstance(a, ast.Attribute) and a.attr == "name" and norm(a.value) == norm(b)
+                         for g_ in enclosing(ev, n, (ast.If, ast.While, ast.IfExp), f) for a in ast.walk(g_.test))
+            if not tested:
+                bad = n
+        rep.analysed("rdflib/plugins/sparql/evaluate.py:" + q)
+        rep.ob("C08.s-no-positional-algebra-navigation", ev, q, "operand steps of %s" % q if bad is None else bad, bad is None,
+               "one step, or the operand's kind is tested first" if bad is None else
+               "%s takes an operand step from an operand whose kind was not tested: with a solution modifier (LIMIT, ORDER BY, DISTINCT) around the pattern another node is there and the field read is None" % norm(bad),
+               node=bad or f)
+
+    # ------------------------------------------------------------------ (t)  F274
+    rep.rule("C08.t-pushed-evaluation-gated-by-lazy",
+             "evaluate.py: an operand is evaluated with the solutions of its sibling operand pushed in (`evalPart(ctx.thaw(a), node.pK)` inside a loop over the solutions of node.pJ) only "
+             "where node.lazy holds - in the branch of a test of node.lazy, after `if node.lazy is False: ...; return`, or in a function only called from such a branch - and analyse() stores "
+             "n[\"lazy\"] for every node kind whose evaluator reads it (a missing field reads as None). Otherwise `?s :p ?o OPTIONAL { SELECT ?o ?x { ?o :q ?x } LIMIT 1 }` takes the LIMIT of the "
+             "sub-select per left solution, i.e. of the sequence already restricted to that ?o, instead of once", floor=5)
+    table = H.dispatch_table(ev)
+    if len(table) < 15 or "LeftJoin" not in table or "AggregateJoin" not in table:
+        raise AnalysisError("evalPart: dispatch on part.name not recognised (%s)" % sorted(table))
+    ev_evalpart = ev.func("evalPart")
+
+    def node_param(f):
+        return f.args.args[1].arg if len(f.args.args) >= 2 else None
+
+    def operand_call(c, nodep):
+        """c is evalPart(<ctx>, <nodep>.pK)"""
+        return isinstance(c, ast.Call) and isinstance(c.func, ast.Name) and c.func.id == ev_evalpart.name and len(c.args) == 2 \
+            and isinstance(c.args[1], ast.Attribute) and c.args[1].attr in P and isinstance(c.args[1].value, ast.Name) and c.args[1].value.id == nodep
+
+    def is_thaw(e):
+        return isinstance(e, ast.Call) and isinstance(e.func, ast.Attribute) and e.func.attr == "thaw"
+
+    for q, f in ev.functions():
+        nodep = node_param(f)
+        if nodep is None or "." in q:
+            continue
+        for c in own_nodes(f):
+            if not operand_call(c, nodep):
+                continue
+            a0 = c.args[0]
+            pushed = is_thaw(a0) or (isinstance(a0, ast.Name) and any(is_thaw(v) for v in H.local_values(f, a0.id)))
+            if not pushed:
+                continue
+            # ... inside a loop over the solutions of another operand of the same node
+            loops = [l for l in enclosing(ev, c, (ast.For,), f) if any(operand_call(x, nodep) and x is not c for x in ast.walk(l.iter))]
+            if not loops:
+                continue
+            gated = H.flag_gated(ev, f, c, nodep, "lazy")
+            if not gated:
+                callers = [(q2, c2) for q2, f2 in ev.functions() for c2 in own_nodes(f2)
+                           if isinstance(c2, ast.Call) and isinstance(c2.func, ast.Name) and c2.func.id == f.name and q2 != q]
+                gated = bool(callers) and all(len(c2.args) >= 2 and isinstance(c2.args[1], ast.Name) and H.flag_gated(ev, ev.func(q2), c2, c2.args[1].id, "lazy") for q2, c2 in callers)
+            rep.ob("C08.t-pushed-evaluation-gated-by-lazy", ev, q, c, gated,
+                   "only where the node is lazy" if gated else
+                   "%s is evaluated once per solution of the sibling operand, with that solution's bindings pushed in, whether or not the operand is a LIMIT / OFFSET / DISTINCT / grouped sub-select: "
+                   "the slice (the groups) are taken of the restricted sequence" % norm(c.args[1]), node=c)
+    an = alg.func("analyse")
+    an_n = an.args.args[0].arg
+    flagged_kinds: set[str] = set()
+    for ks, br in H.name_branches(an, an_n, alg):
+        if any(isinstance(s_, ast.Assign) and any(isinstance(t, ast.Subscript) and norm(t.value) == an_n and isinstance(t.slice, ast.Constant) and t.slice.value == "lazy" for t in s_.targets)
+               for s_ in br.body):
+            flagged_kinds |= ks
+    if not flagged_kinds:
+        raise AnalysisError("algebra.analyse: no n[\"lazy\"] = ... under a test of n.name")
+    for k, fname in sorted(table.items()):
+        f = ev.defs.get(fname)
+        if not isinstance(f, ast.FunctionDef) or node_param(f) is None:
+            continue
+        if any(isinstance(a, ast.Attribute) and a.attr == "lazy" and norm(a.value) == node_param(f) for a in own_nodes(f)):
+            ok = k in flagged_kinds
+            rep.ob("C08.t-pushed-evaluation-gated-by-lazy", alg, "analyse", "%s reads %s.lazy of a %s node" % (fname, node_param(f), k), ok,
+                   "analyse() stores it" if ok else "analyse() stores n[\"lazy\"] only for %s: on a %s node the flag reads as None, which %s takes for one of its two cases whatever the operands are" % (
+                       sorted(flagged_kinds), k, fname), node=an)
+
+    # ------------------------------------------------------------------ (u)  F275
+    rep.rule("C08.u-sequence-operators-not-lazy",
+             "algebra.analyse answers False (`cannot be evaluated with outer bindings pushed in`) for every node kind whose evaluator is not a per-solution map or filter of its operand: it "
+             "slices the operand positionally (islice), or inside its loop over the operand's solutions it tests the solution against, or feeds it to, an object that lives across iterations "
+             "(a `seen` set, the aggregators of the groups); collecting the solutions in a list is no such state. With ?k pushed into `{ SELECT ?k (COUNT(?x) AS ?n) { ... } GROUP BY ?k }` an "
+             "inner solution that leaves ?k unbound is compatible with the pushed value and is counted into that value's group, and the group of the unbound key is lost", floor=3)
+    nonlazy: set[str] = set()
+    for ks, br in H.name_branches(an, an_n, alg):
+        rets = [r for s_ in br.body for r in ast.walk(s_) if isinstance(r, ast.Return)]
+        if rets and all(isinstance(r.value, ast.Constant) and r.value.value is False for r in rets):
+            nonlazy |= ks
+    if len(nonlazy) < 2:
+        raise AnalysisError("algebra.analyse: branches answering False not recognised (%s)" % sorted(nonlazy))
+    # REDUCED may keep any number of copies between one and all of them (SPARQL 18.5 Reduced): evaluated under pushed bindings it only answers with another permitted multiplicity
+    MULTIPLICITY_FREE = {"Reduced"}
+
+    def sequence_state(f) -> str | None:
+        nodep, ctxp = node_param(f), f.args.args[0].arg
+        opnames = {t.id for a in own_nodes(f) if isinstance(a, ast.Assign) and operand_call(a.value, nodep) for t in a.targets if isinstance(t, ast.Name)}
+
+        def is_operand(e):
+            return operand_call(e, nodep) or (isinstance(e, ast.Name) and e.id in opnames)
+
+        for c in own_nodes(f):
+            if isinstance(c, ast.Call) and norm(c.func).split(".")[-1] == "islice" and c.args and is_operand(c.args[0]):
+                return "takes a positional slice of the operand's solutions (%s)" % norm(c)[:60]
+        for lp in own_nodes(f):
+            if not (isinstance(lp, ast.For) and is_operand(lp.iter) and isinstance(lp.target, ast.Name)):
+                continue
+            row = lp.target.id
+            inner = H.stored_names(lp.body) | {row, ctxp} | {l.target.id for l in enclosing(ev, lp, (ast.For,), f) if isinstance(l.target, ast.Name)}
+            for n in [x for s_ in lp.body for x in ast.walk(s_)]:
+                if isinstance(n, ast.Compare) and len(n.ops) == 1 and isinstance(n.ops[0], (ast.In, ast.NotIn)) and isinstance(n.left, ast.Name) and n.left.id == row:
+                    r = H.root_name(n.comparators[0])
+                    if r is not None and r not in inner:
+                        return "tests each solution against `%s`, which lives across the solutions (%s)" % (r, norm(n))
+                if isinstance(n, ast.Call) and isinstance(n.func, ast.Attribute) and any(isinstance(x, ast.Name) and x.id == row for a in n.args for x in ast.walk(a)):
+                    r = H.root_name(n.func.value)
+                    if r is None or r in inner:
+                        continue
+                    vals = H.local_values(f, r)
+                    is_list = isinstance(n.func.value, ast.Name) and bool(vals) and all(isinstance(v, ast.List) or (isinstance(v, ast.Call) and norm(v.func) == "list") for v in vals)
+                    if n.func.attr in ("append", "extend") and is_list:
+                        continue  # the solutions are only collected, in order
+                    return "feeds each solution to `%s`, which lives across the solutions (%s)" % (r, norm(n)[:60])
+        return None
+
+    for k, fname in sorted(table.items()):
+        f = ev.defs.get(fname)
+        if not isinstance(f, ast.FunctionDef) or node_param(f) is None:
+            continue
+        why = sequence_state(f)
+        if why is None:
+            continue
+        if k in MULTIPLICITY_FREE:
+            rep.ob("C08.u-sequence-operators-not-lazy", alg, "analyse", "%s (%s)" % (k, fname), True, "any multiplicity is a correct answer of REDUCED", node=an, vacuous=True)
+            continue
+        ok = k in nonlazy
+        rep.ob("C08.u-sequence-operators-not-lazy", alg, "analyse", "%s: %s %s" % (k, fname, why), ok,
+               "analyse() answers False" if ok else "%s %s, so its result for a restricted input is not the restriction of its result - but analyse() answers False only for %s: a join with a "
+               "%s sub-select is evaluated lazily, with the outer solution pushed into it" % (fname, why, sorted(nonlazy), k), node=an)
+
+    # ------------------------------------------------------------------ (v)  F276
+    rep.rule("C08.v-group-keys-bound-without-select-clause",
+             "algebra.translateAggregates returns the list of (aggregate variable, variable) pairs that are bound again after grouping; a pair for each variable grouped by (a loop over values "
+             "derived from <Group>.expr) is added on a path that does not require q.projection: CONSTRUCT, ASK and DESCRIBE have no SELECT clause. Otherwise `CONSTRUCT { ?t a :Used } WHERE { ?x a ?t } "
+             "GROUP BY ?t` gets one empty solution per group and constructs nothing", floor=1)
+    ta = alg.func("translateAggregates")
+    if len(ta.args.args) < 2:
+        raise AnalysisError("translateAggregates: signature not recognised")
+    qp, mp = ta.args.args[0].arg, ta.args.args[1].arg
+    rets = [r for r in own_nodes(ta) if isinstance(r, ast.Return) and isinstance(r.value, ast.Tuple) and len(r.value.elts) == 2 and isinstance(r.value.elts[1], ast.Name)]
+    if not rets:
+        raise AnalysisError("translateAggregates: `return <AggregateJoin>, <pairs>` not found")
+    pairs = rets[0].value.elts[1].id
+    adds = [c for c in own_nodes(ta) if isinstance(c, ast.Call) and isinstance(c.func, ast.Attribute) and c.func.attr == "append" and norm(c.func.value) == pairs]
+    if not adds:
+        raise AnalysisError("translateAggregates: nothing is appended to the returned pairs")
+
+    def needs_projection(site) -> bool:
+        child = site
+        for p_ in alg.parents(site):
+            if isinstance(p_, ast.If) and child in p_.body:
+                conj = p_.test.values if isinstance(p_.test, ast.BoolOp) and isinstance(p_.test.op, ast.And) else [p_.test]
+                if any(norm(t) == qp + ".projection" for t in conj):
+                    return True
+            if p_ is ta:
+                break
+            child = p_
+        return False
+
+    def over_group_keys(site) -> bool:
+        for l in enclosing(alg, site, (ast.For,), ta):
+            for x in H.expand_all(ta, l.iter, {qp, mp}):
+                if any(isinstance(a, ast.Attribute) and a.attr == "expr" and norm(a.value) == mp for a in ast.walk(x)):
+                    return True
+        return False
+
+    free = [c for c in adds if over_group_keys(c) and not needs_projection(c)]
+    rep.ob("C08.v-group-keys-bound-without-select-clause", alg, "translateAggregates", "%s.append(...) for the variables of %s.expr" % (pairs, mp), bool(free),
+           "also without a SELECT clause" if free else "the variables grouped by are bound again after grouping only under `if %s.projection`: a CONSTRUCT / ASK / DESCRIBE query with GROUP BY "
+           "gets solutions that bind nothing" % qp, node=adds[-1])
+
+    # ------------------------------------------------------------------ (w)  F277
+    rep.rule("C08.w-select-aliases-not-sampled",
+             "algebra.translateAggregates: the SAMPLE rewrite (`traverse(X, _sample)`) of the clauses that are evaluated after the (expr AS ?var) of the SELECT clause have been bound - the SELECT "
+             "expressions themselves and ORDER BY - is told to keep those variables (the `keep` collection of _sample receives .evar values): they are bound after grouping, not in the group. "
+             "`SELECT (SUM(?v) AS ?s) (COUNT(?v) AS ?n) (?s / ?n AS ?avg)` otherwise computes SAMPLE(?s) / SAMPLE(?n) over the group, where neither is bound, and ?avg stays unbound", floor=2)
+    seen_clauses = set()
+    for c in own_nodes(ta):
+        if not (isinstance(c, ast.Call) and norm(c.func) == "traverse" and len(c.args) >= 2):
+            continue
+        fn_ = c.args[1]
+        part = fn_ if isinstance(fn_, ast.Call) and norm(fn_.func).split(".")[-1] == "partial" else None
+        target = part.args[0] if part is not None and part.args else fn_
+        if not (isinstance(target, ast.Name) and target.id == "_sample"):
+            continue
+        x = c.args[0]
+        clause = None
+        if isinstance(x, ast.Attribute) and norm(x.value) == qp and x.attr in ("orderby", "having"):
+            clause = x.attr
+        elif isinstance(x, ast.Attribute) and x.attr == "expr" and isinstance(x.value, ast.Name) and any(
+                isinstance(l.target, ast.Name) and l.target.id == x.value.id and norm(l.iter) == qp + ".projection" for l in enclosing(alg, c, (ast.For,), ta)):
+            clause = "projection"
+        if clause is None:
+            raise AnalysisError("translateAggregates: _sample rewrite of %s not modelled" % norm(x))
+        seen_clauses.add(clause)
+        if clause == "having":
+            continue  # HAVING is evaluated before the SELECT expressions are
+        keep = [k.value for k in part.keywords if k.arg == "keep"] if part is not None else []
+        ok = False
+        if keep:
+            srcs = list(H.expand_locals(ta, keep[0], {qp, mp}))
+            if isinstance(keep[0], ast.Name):
+                srcs += [a for m_ in own_nodes(ta) if isinstance(m_, ast.Call) and isinstance(m_.func, ast.Attribute) and m_.func.attr in ("add", "update", "append")
+                         and norm(m_.func.value) == keep[0].id for a in m_.args]
+            ok = any(isinstance(a, ast.Attribute) and a.attr == "evar" for s_ in srcs for a in ast.walk(s_))
+        rep.ob("C08.w-select-aliases-not-sampled", alg, "translateAggregates", "_sample rewrite of the %s clause" % clause, ok,
+               "keeps the (expr AS ?var) variables" if ok else "%s is rewritten with _sample without a `keep` collection holding the variables of the (expr AS ?var) of the SELECT clause: such a "
+               "variable used in the %s is replaced by SAMPLE(?var) over the group, where it is not bound" % (norm(x), "SELECT clause after its definition" if clause == "projection" else "ORDER BY"), node=c)
+    if not {"projection", "orderby"} <= seen_clauses:
+        raise AnalysisError("translateAggregates: _sample rewrites found only for %s" % sorted(seen_clauses))
+
+    # ------------------------------------------------------------------ (x)  F278
+    rep.rule("C08.x-sort-key-separates-incomparable-literals",
+             "Literal.__gt__ answers NotImplemented for two literals under a test of their (coalesced) datatypes being different (rdflib.DAWG_LITERAL_COLLATION); a sort key that contains the "
+             "literal itself is a total order only if an earlier component of the key is computed from the datatype (not merely from its membership in the numeric types), so that two literals "
+             "reaching the comparison have the same one. Otherwise `ORDER BY ?v` over \"b\", \"2020-01-01\"^^xsd:date, \"a\" leaves the rows in store order, and MIN/MAX depend on it", floor=1)
+    gt = term.func("Literal.__gt__")
+    other = gt.args.args[1].arg
+    refuses = False
+    other_is_literal = H.instance_test(other, "Literal")
+    gt_params = {a.arg for a in gt.args.args}
+    # a `return NotImplemented` that is reached only with `other` known to be a Literal (inside `if isinstance(other, Literal)`, or after the guard clause that
+    # leaves for everything else), on the side of a comparison of the two datatypes where they differ
+    for r in own_nodes(gt):
+        if not (isinstance(r, ast.Return) and isinstance(r.value, ast.Name) and r.value.id == "NotImplemented" and H.established(term, gt, r, other_is_literal)):
+            continue
+        child = r
+        for g_ in term.parents(r):
+            if g_ is gt:
+                break
+            if isinstance(g_, ast.If) and isinstance(g_.test, ast.Compare) and len(g_.test.ops) == 1 and (
+                    (isinstance(g_.test.ops[0], ast.NotEq) and child in g_.body) or (isinstance(g_.test.ops[0], ast.Eq) and child in g_.orelse)):
+                srcs = [y for side in (g_.test.left, g_.test.comparators[0]) for y in H.expand_locals(gt, side, gt_params)]
+                if any(isinstance(a, ast.Attribute) and a.attr == "datatype" for y in srcs for a in ast.walk(y)):
+                    refuses = True
+            child = g_
+    if not refuses:
+        raise AnalysisError("Literal.__gt__ no longer answers NotImplemented for literals of different datatypes: rule C08.x must be revisited")
+    term_keys = H.term_key_functions(repo, ev, ag, H.sort_key_sites(repo, (ev, ag)))
+    if not term_keys:
+        raise AnalysisError("no sort key function found")
+    for km, kfn, p0, lit_returns in term_keys:
+        params = {a.arg for a in kfn.args.args}
+        for rt in lit_returns:
+            if rt.value is None:
+                continue
+            elts = rt.value.elts if isinstance(rt.value, ast.Tuple) else [rt.value]
+            idx = next((i for i, e in enumerate(elts) if isinstance(e, ast.Name) and e.id == p0), None)
+            if idx is None:
+                continue  # the literal itself is not part of the key
+            ok = False
+            for e in elts[:idx]:
+                for x in H.expand_locals(kfn, e, params):
+                    for n, ps in H.walk_with_parents(x):
+                        if isinstance(n, ast.Attribute) and n.attr == "datatype" and norm(n.value) == p0 and not any(isinstance(p_, ast.Compare) for p_ in ps):
+                            ok = True
+            rep.ob("C08.x-sort-key-separates-incomparable-literals", km, kfn.name, "key of a Literal: %s" % norm(rt.value), ok,
+                   "the datatype comes before the literal" if ok else "no component before the literal is computed from its datatype: two literals of different datatypes are compared with "
+                   "Literal.__gt__/__lt__, which refuse (NotImplemented / False both ways) under DAWG_LITERAL_COLLATION - the key is not an order and sorted() leaves such rows where they were", node=rt)
+
+    # ------------------------------------------------------------------ (y) (z)  F279 F280
+    rep.rule("C08.y-numeric-aggregate-arithmetic-overflow",
+             "an accumulator whose update() converts with operators.numeric() adds Python numbers of mixed kinds (type_safe_numbers: float + int): the addition lies in a try whose handlers "
+             "catch OverflowError (an xsd:integer beyond the double range cannot be added to a float) and record it on self like numeric()'s type error, so that the aggregate is an error "
+             "(variable unbound). `SELECT (SUM(?v) AS ?s)` over 1.5e0 and 10**400 otherwise aborts the whole query with OverflowError", floor=2)
+    rep.rule("C08.z-aggregate-result-datatype",
+             "an accumulator whose update() tracks the promoted datatype of its operands in self.datatype builds the literal it answers with `datatype=self.datatype` wherever more than one "
+             "datatype is possible for the same Python value - unconditionally, or in the branch of a test of self.datatype against several datatypes: Literal(<float>) alone is always "
+             "xsd:double, so AVG over \"1.5\"^^xsd:float, \"2.5\"^^xsd:float answers an xsd:double where SUM answers an xsd:float", floor=2)
+    concrete: list[str] = []
+    for st in ag.cls("Aggregator").body:
+        if isinstance(st, ast.Assign) and norm(st.targets[0]) == "accumulator_classes" and isinstance(st.value, ast.Dict):
+            concrete = sorted({norm(v) for v in st.value.values})
+    if len(concrete) < 7:
+        raise AnalysisError("Aggregator.accumulator_classes not found")
+
+    def resolved(cname: str, meth: str):
+        for b in typed.mro(AG + cname):
+            if b.startswith(AG):
+                m = ag.methods(b[len(AG):]).get(meth)
+                if m is not None:
+                    return b[len(AG):], m
+        return None, None
+
+    OVERFLOW = {"OverflowError", "ArithmeticError", "Exception", "BaseException"}
+    n_num = n_dt = 0
+    for cname in concrete:
+        owner, upd = resolved(cname, "update")
+        if upd is None:
+            raise AnalysisError("%s: update() not resolved" % cname)
+        selfn = upd.args.args[0].arg
+        numcalls = [c for c in own_nodes(upd) if isinstance(c, ast.Call) and isinstance(c.func, ast.Name) and (H.resolve_function(repo, ag, c.func.id) or (None, None))[0] is opm
+                    and H.resolve_function(repo, ag, c.func.id)[1].name == "numeric"]
+        if numcalls:
+            n_num += 1
+            numnames = {t.id for a in own_nodes(upd) if isinstance(a, ast.Assign) and a.value in numcalls for t in a.targets if isinstance(t, ast.Name)}
+
+            def uses_number(e) -> bool:
+                return any(x in numcalls or (isinstance(x, ast.Name) and x.id in numnames) for x in ast.walk(e))
+
+            arith = [n for n in own_nodes(upd) if uses_number(n) and (
+                (isinstance(n, ast.Call) and isinstance(n.func, ast.Name) and n.func.id == "sum") or
+                (isinstance(n, ast.BinOp) and isinstance(n.op, (ast.Add, ast.Sub, ast.Mult))) or
+                (isinstance(n, ast.AugAssign) and isinstance(n.op, (ast.Add, ast.Sub, ast.Mult))))]
+            if not arith:
+                raise AnalysisError("%s.update: the addition of the converted number not found" % owner)
+            for a in arith:
+                tries = [t for t in enclosing(ag, a, (ast.Try,), upd) if any(a in ast.walk(s_) for s_ in t.body)]
+                h = next((h for t in tries for h in t.handlers if h.type is None or H.type_names(h.type) & OVERFLOW), None)
+                marks = {t.attr for s_ in (h.body if h is not None else []) for x in ast.walk(s_) for t in (x.targets if isinstance(x, ast.Assign) else [x.target] if isinstance(x, (ast.AugAssign, ast.AnnAssign)) else [])
+                         if isinstance(t, ast.Attribute) and norm(t.value) == selfn}
+                ok = h is not None and bool(marks)
+                rep.ob("C08.y-numeric-aggregate-arithmetic-overflow", ag, "%s.update" % cname, a, ok,
+                       "OverflowError makes the aggregate an error (self.%s)" % sorted(marks) if ok else
+                       "the OverflowError of adding an integer beyond the double range to a float is %s: it leaves update() and Aggregator.update, and the query raises instead of leaving the variable unbound" % (
+                           "not caught here" if h is None else "caught without recording it"), node=a)
+        # (z)
+        tracks = any(isinstance(t, ast.Attribute) and t.attr == "datatype" and norm(t.value) == selfn
+                     for a in own_nodes(upd) if isinstance(a, (ast.Assign, ast.AugAssign, ast.AnnAssign)) for t in (a.targets if isinstance(a, ast.Assign) else [a.target]))
+        if not tracks:
+            continue
+        n_dt += 1
+        gowner, gv = resolved(cname, "get_value")
+        if gv is None:
+            raise AnalysisError("%s: get_value() not resolved" % cname)
+        gself = gv.args.args[0].arg
+        for c in own_nodes(gv):
+            if not (isinstance(c, ast.Call) and norm(c.func) == "Literal" and c.args):
+                continue
+            ctx_kind = "unconditional"
+            child = c
+            for p_ in ag.parents(c):
+                if isinstance(p_, ast.If) and any(isinstance(a, ast.Attribute) and a.attr == "datatype" and norm(a.value) == gself for a in ast.walk(p_.test)):
+                    t = p_.test
+                    several = isinstance(t, ast.Compare) and len(t.ops) == 1 and isinstance(t.ops[0], ast.In) and isinstance(t.comparators[0], (ast.Tuple, ast.List, ast.Set)) and len(t.comparators[0].elts) > 1
+                    ctx_kind = "several" if several and child in p_.body else "decided"
+                    break
+                if p_ is gv:
+                    break
+                child = p_
+            reads_state = any(isinstance(a, ast.Attribute) and norm(a.value) == gself for a in ast.walk(c.args[0]))
+            if ctx_kind == "decided" or not reads_state:
+                continue  # one datatype follows from the branch (integers average to a decimal) / a constant (the empty group)
+            ok = any(k.arg == "datatype" and any(isinstance(a, ast.Attribute) and a.attr == "datatype" and norm(a.value) == gself for a in ast.walk(k.value)) for k in c.keywords)
+            rep.ob("C08.z-aggregate-result-datatype", ag, "%s.get_value" % cname, c, ok,
+                   "carries the tracked datatype" if ok else "%s.update tracks the datatype of the operands, but this result (%s) is built without it: Literal() derives the datatype from the "
+                   "Python value alone, so an xsd:float (or any derived numeric type) operand gives an answer of another datatype" % (owner, "for any datatype" if ctx_kind == "unconditional" else "in the branch for several datatypes"), node=c)
+    if n_num < 2 or n_dt < 2:
+        raise AnalysisError("expected SUM and AVG to convert with numeric() and to track self.datatype (found %d / %d)" % (n_num, n_dt))
+
+    # ------------------------------------------------------------------ (aa)  F281
+    rep.rule("C08.aa-islice-bounds-clamped",
+             "every bound handed to itertools.islice that is computed from a field of the algebra node (LIMIT / OFFSET are arbitrary integers of the query) goes through min(<bound>, <a limit "
+             "that does not depend on the node>): islice() raises ValueError for an int above sys.maxsize, and it does so when the result is consumed. `LIMIT 9223372036854775807 OFFSET 1` "
+             "(the `no limit` of generated queries) has start + length = sys.maxsize + 1", floor=2)
+    n_isl = 0
+    for mname, m in sorted(repo.modules.items()):
+        if not mname.startswith("rdflib.plugins.sparql"):
+            continue
+        for q, f in m.functions():
+            params = {a.arg for a in f.args.args}
+            for c in own_nodes(f):
+                if not (isinstance(c, ast.Call) and norm(c.func).split(".")[-1] == "islice" and len(c.args) >= 2):
+                    continue
+
+                def alternatives(e, depth=0):
+                    if isinstance(e, ast.IfExp):
+                        return alternatives(e.body, depth) + alternatives(e.orelse, depth)
+                    if isinstance(e, ast.Name) and e.id not in params and depth < 3:
+                        vals = H.local_values(f, e.id)
+                        if vals:
+                            return [x for v in vals for x in alternatives(v, depth + 1)]
+                    return [e]
+
+                def from_node(e) -> bool:
+                    return any(isinstance(a, ast.Attribute) and isinstance(a.value, ast.Name) and a.value.id in params for a in ast.walk(e))
+
+                for i, b in enumerate(c.args[1:], 1):
+                    for e in alternatives(b):
+                        e = H.subst_locals(f, e, params)  # in terms of the parameters: `offset = part.start` is a copy, not another source
+                        if not from_node(e):
+                            continue
+                        n_isl += 1
+                        ok = isinstance(e, ast.Call) and norm(e.func) == "min" and len(e.args) == 2 and sum(1 for a in e.args if from_node(a)) == 1
+                        rep.ob("C08.aa-islice-bounds-clamped", m, q, "islice bound %d: %s" % (i, norm(e)), ok,
+                               "clamped" if ok else "%s reaches islice() as it is: a LIMIT / OFFSET (or their sum) above sys.maxsize raises ValueError when the result is consumed" % norm(e), node=c)
+    if not n_isl:
+        raise AnalysisError("no islice() with bounds taken from an algebra node found: rule C08.aa has lost its anchor")
+
+    # ------------------------------------------------------------------ (ab)  F282
+    rep.rule("C08.ab-select-star-scope",
+             "algebra._findVars (the visitor `translate` runs over the WHERE clause to find what SELECT * projects) stops - returns a value, which ends traverse()'s descent - at every production "
+             "whose content is not in scope (SPARQL 18.2.1): Bind (only its variable), SubSelect (only its projection), Filter (nothing: the expression and its EXISTS patterns bind nothing) and "
+             "MinusGraphPattern (nothing: the right operand of MINUS). Otherwise `SELECT * { ?s ?p ?o FILTER NOT EXISTS { ?s :q ?z } }` has an always-unbound column ?z", floor=4)
+    tr = alg.func("translate")
+    if not any(isinstance(n, ast.Name) and n.id == "_findVars" for n in ast.walk(tr)):
+        raise AnalysisError("algebra.translate no longer collects the SELECT * variables with _findVars")
+    fv = alg.func("_findVars")
+    fx, fres = fv.args.args[0].arg, fv.args.args[1].arg
+    gp = H.grammar_params(par)
+    branches = H.name_branches(fv, fx, alg)
+    for K, adds_nothing in (("Bind", False), ("SubSelect", False), ("Filter", True), ("MinusGraphPattern", True)):
+        if K not in gp:
+            raise AnalysisError("parser.py: production %s not found" % K)
+        brs = [br for ks, br in branches if K in ks]
+        stops = any(H.always_returns_value(br.body) for br in brs)
+        collects = [c for br in brs for s_ in br.body for c in ast.walk(s_) if isinstance(c, ast.Call) and isinstance(c.func, ast.Attribute) and norm(c.func.value) == fres]
+        ok = stops and not (adds_nothing and collects)
+        rep.ob("C08.ab-select-star-scope", alg, "_findVars", "stops at %s" % K, ok,
+               "not descended into" if ok else ("%s is descended into: the variables that occur only inside it (not in scope) are projected by SELECT * as columns that are never bound" % K if not stops
+                                              else "the branch for %s collects variables (%s) although nothing in it is in scope" % (K, norm(collects[0]))), node=brs[0] if brs else fv)
+
+    # ------------------------------------------------------------------ (ac)  F283
+    rep.rule("C08.ac-exists-pattern-translated-in-modifiers",
+             "the expressions that carry a graph pattern (grammar: Builtin_* productions with a `graph` parameter - EXISTS, NOT EXISTS) may be written wherever an Expression may: algebra.translate "
+             "hands every such clause of the query (projection, groupby, having, orderby) to translateExists, whose visitor knows each of these productions, and _sample (the SAMPLE rewrite of an "
+             "aggregate query) returns such a node unchanged instead of rewriting the variables of its pattern. `... GROUP BY ?s HAVING (EXISTS { ?s :q ?z })` otherwise reaches evalPart with the parse "
+             "tree of the pattern: 'I dont know: GroupGraphPatternSub'", floor=8)
+    carriers = sorted(k for k, (allp, _o) in gp.items() if k.startswith("Builtin_") and "graph" in allp)
+    if len(carriers) < 2:
+        raise AnalysisError("parser.py: Builtin_EXISTS / Builtin_NOTEXISTS productions with a `graph` parameter not found (%s)" % carriers)
+    tq = tr.args.args[0].arg
+    covered: set[str] = set()
+    for c in own_nodes(tr):
+        if isinstance(c, ast.Call) and isinstance(c.func, ast.Name) and c.func.id == "translateExists":
+            for a in c.args:
+                for x in ast.walk(a):
+                    if isinstance(x, ast.Attribute) and norm(x.value) == tq:
+                        covered.add(x.attr)
+                    if isinstance(x, ast.Name):
+                        for l in enclosing(alg, c, (ast.For,), tr):
+                            if isinstance(l.target, ast.Name) and l.target.id == x.id and isinstance(l.iter, (ast.Tuple, ast.List)):
+                                covered |= {e.attr for e in l.iter.elts if isinstance(e, ast.Attribute) and norm(e.value) == tq}
+    for clause, where in (("projection", "SELECT (EXISTS {...} AS ?b)"), ("groupby", "GROUP BY (EXISTS {...})"), ("having", "HAVING (EXISTS {...})"), ("orderby", "ORDER BY (EXISTS {...})")):
+        if not any(isinstance(a, ast.Attribute) and a.attr == clause and norm(a.value) == tq for a in own_nodes(tr)):
+            raise AnalysisError("algebra.translate no longer reads %s.%s" % (tq, clause))
+        ok = clause in covered
+        rep.ob("C08.ac-exists-pattern-translated-in-modifiers", alg, "translate", "%s.%s goes through translateExists" % (tq, clause), ok,
+               "translated" if ok else "the %s clause is put into the algebra without translateExists: the pattern of `%s` stays a parse tree, which evalPart does not know" % (clause, where), node=tr)
+    te = alg.func("translateExists")
+    te_names = {x.value for x in ast.walk(te) if isinstance(x, ast.Constant) and isinstance(x.value, str)}
+    sm = alg.func("_sample")
+    se = sm.args.args[0].arg
+    sm_br = H.name_branches(sm, se, alg)
+    for K in carriers:
+        ok = K in te_names
+        rep.ob("C08.ac-exists-pattern-translated-in-modifiers", alg, "translateExists", "knows %s" % K, ok, "" if ok else "translateExists does not translate the pattern of %s" % K, node=te)
+        ok = any(K in ks and any(isinstance(r, ast.Return) and isinstance(r.value, ast.Name) and r.value.id == se for r in br.body) for ks, br in sm_br)
+        rep.ob("C08.ac-exists-pattern-translated-in-modifiers", alg, "_sample", "returns a %s node unchanged" % K, ok,
+               "its pattern is not rewritten" if ok else "_sample descends into the pattern of %s and replaces its variables by SAMPLE(?v): the pattern is matched with the solution of the group "
+               "substituted, `HAVING (EXISTS { ?s :q ?z })` becomes a pattern over aggregate calls" % K, node=sm)
